@@ -1,6 +1,7 @@
 package worlds
 
 import (
+	"context"
 	"fmt"
 
 	"github.com/bradenaw/juniper/stream"
@@ -73,6 +74,14 @@ func pipeWorld(r *R) {
 	var closeErrWant error
 	if closeMode == 3 {
 		closeErrWant = NewErr("closeE")
+		switch r.Choose(6, "close-err-value") { // a producer passing on why it stopped: errors the library knows too
+		case 3:
+			closeErrWant = context.Canceled
+		case 4:
+			closeErrWant = context.DeadlineExceeded
+		case 5:
+			closeErrWant = stream.ErrClosedPipe
+		}
 	}
 	nNext := total + 3
 	recvCloseAfter := -1
@@ -191,6 +200,7 @@ func pipeWorld(r *R) {
 			}
 			v, err := recv.Next(ctx.C)
 			cs.End(c, v, err == nil, err)
+			ctxOK := isCtxErr(err) && ctx.Dead() && err == ctx.C.Err()
 			switch {
 			case err == nil:
 				if terminal != nil && terminalNoSendInFlight && !laterSendSince(sendCalls, terminal) {
@@ -214,6 +224,12 @@ func pipeWorld(r *R) {
 				if sc.Returned && (sc.Err != nil || !sc.OK) {
 					r.Violate("C10", "received-failed-send", "value %d was received although its %s had reported failure: %v", v, sc.Kind, sc)
 				}
+			case ctxOK && closeErrWant != nil && err == closeErrWant && closeCall != nil:
+				// the close error is the very error this call's own expired context gives: either
+				// reading is in order, and the laxer one (no end has been announced) is taken
+				r.Probe("close-error-indistinguishable-from-ctx-error")
+			case ctxOK:
+				// this call's own context
 			case err == stream.End || (closeErrWant != nil && err == closeErrWant):
 				if closeCall == nil {
 					r.Violate("C10", "end-without-close", "Next reported %v although the sender was never closed", err)
@@ -327,20 +343,27 @@ func laterSendSince(sendCalls map[int]*Call, terminal *Call) bool {
 
 func pipeCheckSendResult(r *R, c *Call, recvClose, senderClose *Call, closeErr error) {
 	err := c.Err
+	if err == nil {
+		return
+	}
+	// The close error may be a value the library uses itself (context.Canceled, ErrClosedPipe): an
+	// error is in order if any one of its possible reasons applies.
+	if isCtxErr(err) && c.Ctx.Dead() && err == c.Ctx.C.Err() {
+		return
+	}
+	if err == stream.ErrClosedPipe && recvClose != nil {
+		return
+	}
+	if closeErr != nil && err == closeErr && senderClose != nil {
+		return
+	}
 	switch {
-	case err == nil:
 	case err == stream.ErrClosedPipe:
-		if recvClose == nil {
-			r.Violate("C10", "wrong-error/"+c.Kind+"/closed-pipe", "%s returned ErrClosedPipe although the receiver never closed", c.Kind)
-		}
+		r.Violate("C10", "wrong-error/"+c.Kind+"/closed-pipe", "%s returned ErrClosedPipe although the receiver never closed", c.Kind)
 	case isCtxErr(err):
-		if !c.Ctx.Dead() {
-			r.Violate("C10", "ctx-error-with-live-ctx/"+c.Kind, "%s returned %v although its context is live", c.Kind, err)
-		}
+		r.Violate("C10", "ctx-error-with-live-ctx/"+c.Kind, "%s returned %v although its context is live", c.Kind, err)
 	case closeErr != nil && err == closeErr:
-		if senderClose == nil {
-			r.Violate("C10", "wrong-error/"+c.Kind+"/close-error", "%s returned the close error although Close was never invoked", c.Kind)
-		}
+		r.Violate("C10", "wrong-error/"+c.Kind+"/close-error", "%s returned the close error although Close was never invoked", c.Kind)
 	default:
 		r.Violate("C10", "wrong-error/"+c.Kind, "%s returned unexpected error %v", c.Kind, err)
 	}
